@@ -5,6 +5,6 @@
 cd /verif
 out=${1:-/tmp/benrun2.out}; par=${2:-4}
 all=$(ls zlv/c[0-9][0-9].go | sed 's|zlv/c|C|; s|\.go||' | tr '\n' ' ')
-ls benign/round2_all/C*/R*.diff | xargs -P $par -I{} bash -c 'r=$(tools/runpatch.sh {} '"$all"' 2>&1 | grep -v "^SILENT" | cut -c1-600); echo "== {} :: ${r:-all silent}"' > "$out"
+ls ${BENDIR:-benign/round2_all}/C*/R*.diff | xargs -P $par -I{} bash -c 'r=$(tools/runpatch.sh {} '"$all"' 2>&1 | grep -v "^SILENT" | cut -c1-600); echo "== {} :: ${r:-all silent}"' > "$out"
 echo "silent: $(grep -c "all silent" "$out") of $(grep -c "^== " "$out")"
 grep -v "all silent" "$out"
